@@ -15,11 +15,15 @@ Definition AnsAll (E : entry -> Prop) (a : answers) : Prop := Forall E a.
 (* every entry of every group of the queue satisfies E *)
 Definition QAll (E : entry -> Prop) (q : oq) : Prop := Forall (fun g => AnsAll E (g_answers g)) (q_groups q).
 
-(* the `strip` of nstep's LUnregister case: pop the withdrawn ids out of every group *)
-Definition strip_group (ks : answers) (g : group) : group :=
-  {| g_after := g_after g; g_before := g_before g; g_answers := a_remove_keys (g_answers g) ks |}.
-Definition strip_queue (ks : answers) (q : oq) : oq :=
-  {| q_groups := map (strip_group ks) (q_groups q);
+(* the `strip` of nstep's LUnregister case (async_remove_answers): pop the withdrawn ids out of every group and drop them
+   from the additionals of every entry that stays *)
+Definition prune_adds (ids : list Z) (kv : entry) : entry :=
+  (fst kv, filter (fun x => negb (existsb (Z.eqb x) ids)) (snd kv)).
+Definition strip_group (ids : list Z) (g : group) : group :=
+  {| g_after := g_after g; g_before := g_before g;
+     g_answers := map (prune_adds ids) (a_remove_keys (g_answers g) (map (fun i => (i, [])) ids)) |}.
+Definition strip_queue (ids : list Z) (q : oq) : oq :=
+  {| q_groups := map (strip_group ids) (q_groups q);
      q_timers := q_timers q; q_additional := q_additional q; q_aggregation := q_aggregation q |}.
 
 Section Entries.
@@ -123,10 +127,11 @@ Section Entries.
       + eapply QAll_pop_branch; eassumption.
   Qed.
 
-  Lemma QAll_strip ks q : QAll E q -> QAll E (strip_queue ks q).
+  Lemma QAll_strip ids q : (forall e, E e -> E (prune_adds ids e)) -> QAll E q -> QAll E (strip_queue ids q).
   Proof.
-    unfold QAll, strip_queue. cbn [q_groups]. intro H. apply Forall_map.
-    eapply Forall_impl; [|exact H]. intros g Hg. cbn [strip_group g_answers]. apply all_a_remove. exact Hg.
+    unfold QAll, strip_queue. cbn [q_groups]. intros HP H. apply Forall_map.
+    eapply Forall_impl; [|exact H]. intros g Hg. cbn [strip_group g_answers]. unfold AnsAll. apply Forall_map.
+    eapply Forall_impl; [|apply all_a_remove; exact Hg]. exact HP.
   Qed.
 End Entries.
 
@@ -158,12 +163,45 @@ Proof.
   - intros H e He. apply H. apply in_map. exact He.
 Qed.
 
-Lemma strip_removes ks q : QDict q -> QAll (key_not_in (keys ks)) (strip_queue ks q).
+Lemma keys_of_ids (ids : list Z) : keys (map (fun i => (i, @nil Z)) ids) = ids.
+Proof. unfold keys. rewrite map_map. cbn [fst]. apply map_id. Qed.
+
+Lemma keys_prune ids (a : answers) : keys (map (prune_adds ids) a) = keys a.
+Proof. unfold keys. rewrite map_map. apply map_ext. reflexivity. Qed.
+
+(* no id of K among the additionals / neither as key nor among the additionals *)
+Definition adds_not_in (K : list Z) (e : entry) : Prop := forall a, In a (snd e) -> ~ In a K.
+Definition free_of (K : list Z) (e : entry) : Prop := key_not_in K e /\ adds_not_in K e.
+
+Lemma prune_adds_not_in ids e : adds_not_in ids (prune_adds ids e).
+Proof.
+  intros a Ha Hin. cbn [prune_adds snd] in Ha. apply filter_In in Ha as [_ Ha]. apply negb_true_iff in Ha.
+  assert (X : existsb (Z.eqb a) ids = true) by (apply existsb_exists; exists a; split; [exact Hin|apply Z.eqb_refl]).
+  congruence.
+Qed.
+
+Lemma strip_removes ids q : QDict q -> QAll (key_not_in ids) (strip_queue ids q).
 Proof.
   unfold QDict, QAll, strip_queue. cbn [q_groups]. intro H. apply Forall_map.
   eapply Forall_impl; [|exact H]. intros g Hg. cbn [strip_group g_answers].
-  apply AnsAll_keys. intros k Hk. exact (keys_remove_nodup ks (g_answers g) k Hg Hk).
+  apply AnsAll_keys. intros k Hk. rewrite keys_prune in Hk.
+  pose proof (keys_remove_nodup (map (fun i => (i, [])) ids) (g_answers g) k Hg Hk) as X. rewrite keys_of_ids in X. exact X.
 Qed.
+
+Lemma strip_removes_adds ids q : QAll (adds_not_in ids) (strip_queue ids q).
+Proof.
+  unfold QAll, strip_queue. cbn [q_groups]. apply Forall_map. apply Forall_forall. intros g _.
+  cbn [strip_group g_answers]. unfold AnsAll. apply Forall_map. apply Forall_forall. intros e _. apply prune_adds_not_in.
+Qed.
+
+Lemma QAll_and (E1 E2 : entry -> Prop) q : QAll E1 q -> QAll E2 q -> QAll (fun e => E1 e /\ E2 e) q.
+Proof.
+  unfold QAll, AnsAll. rewrite !Forall_forall. intros H1 H2 g Hg. specialize (H1 g Hg). specialize (H2 g Hg).
+  rewrite Forall_forall in *. intros e He. split; [apply H1|apply H2]; exact He.
+Qed.
+
+Lemma strip_frees ids q : QDict q -> QAll (free_of ids) (strip_queue ids q).
+Proof. intro D. apply QAll_and; [apply strip_removes; exact D|apply strip_removes_adds]. Qed.
 
 (* entries that survive the stripping were there before *)
 Lemma in_d_del (d : answers) k e : In e (d_del Z.eqb d k) -> In e d.
@@ -178,12 +216,11 @@ Proof.
   rewrite a_remove_cons in H. apply IH in H. eapply in_d_del. exact H.
 Qed.
 
-Lemma strip_groups_in ks q g' e :
-  In g' (q_groups (strip_queue ks q)) -> In e (g_answers g') ->
-  exists g, In g (q_groups q) /\ In e (g_answers g) /\ In (fst e) (keys (g_answers g')).
+Lemma strip_groups_in ids q g' e :
+  In g' (q_groups (strip_queue ids q)) -> In e (g_answers g') ->
+  exists g e0, In g (q_groups q) /\ In e0 (g_answers g) /\ e = prune_adds ids e0.
 Proof.
   unfold strip_queue. cbn [q_groups]. intros Hg He. apply in_map_iff in Hg as (g & <- & Hg).
-  exists g. split; [exact Hg|]. split.
-  - cbn [strip_group g_answers] in He. eapply in_a_remove. exact He.
-  - unfold keys. apply in_map. exact He.
+  cbn [strip_group g_answers] in He. apply in_map_iff in He as (e0 & <- & He0).
+  exists g, e0. split; [exact Hg|]. split; [eapply in_a_remove; exact He0|reflexivity].
 Qed.
